@@ -99,7 +99,7 @@ PROPS = {
                  'checked on whole programs by the trace correspondence; it is not lifted to a whole-machine theorem'],
     ),
     'C02': dict(
-        gen=['Kernel', 'Timing', 'Tracked', 'Lock'], props=['C02', 'C01', 'MachineFifo', 'Skeletons'],
+        gen=['Kernel', 'Timing', 'Tracked', 'Lock'], props=['C02', 'C01', 'MachineFifo', 'MachineFifoRun', 'Skeletons'],
         model=['Prim/KernelModel', 'Machine/Kernel', 'Machine/Step', 'Machine/Run', 'Judge/Judges', 'Lemmas/PushBucket', 'Lemmas/KView',
                'Lemmas/KStepFrames', 'Lemmas/KStep', 'Lemmas/PView', 'Lemmas/PStepFrames', 'Lemmas/PStep'], harness='c02',
         trusted_base=KERNEL_TB + MACHINE_TB + [
@@ -204,7 +204,7 @@ PROPS = {
         partial=['Props/MachineObjects.lean proves on the whole machine, for every program and every number of steps, that an event that has a value keeps exactly that value (event_triggered_once), that processed callbacks are never armed again (callbacks_processed_once) and that it keeps its flag and kind; resumption of every waiter at the trigger time is judged on traces, not proved over all machine states'],
     ),
     'C20': dict(
-        gen=['Timing', 'Scope'], props=['C20', 'MachineYield', 'C02', 'Skeletons'], model=['Machine/Run', 'Machine/Step', 'Judge/Judges'], harness='c20',
+        gen=['Timing', 'Scope'], props=['C20', 'MachineYield', 'MachineFifoRun', 'C02', 'Skeletons'], model=['Machine/Run', 'Machine/Step', 'Judge/Judges'], harness='c20',
         trusted_base=KERNEL_TB + MACHINE_TB + ['templates: postpone/suspend/__await__ of conditions, Scope.__aexit__; the per-operation code paths are hand-modelled in Machine/Run.lean and tied by exact trace correspondence'],
         assumptions=['an activity made runnable earlier in the same time step runs before a later-scheduled wake-up (C02 fifo_now)',
                      'acquiring a free Lock is not among the operations the property lists and does not yield (documented in DESIGN.md)'],
@@ -339,7 +339,7 @@ MANIFEST_TEXT = {
         technique='Lean 4 invariant proof of the event loop for arbitrary behaviours + exact whole-machine differential traces + Lean trace judge',
         design_ref='6 (C01), 3.2, 4.B'),
     'C02': dict(
-        level='The model trace is a function of the program by construction (no oracle). Lean 4 theorems: fifo_same_time, fifo_now, '
+        level='Over any number of steps inside a time step (Props/MachineFifoRun.lean): within_time_step_fifo (the deque only loses elements at the front and gains elements at the back), never_overtaken (an activation behind others is not taken before them and nothing is put in front of it). The model trace is a function of the program by construction (no oracle). Lean 4 theorems: fifo_same_time, fifo_now, '
               'pushBucket_bucket, awakeAll_order (subscription order), backend_same_buckets + hq_pop_min (heap vs sorted dict), '
               'schedule_debug_irrelevant. Tied by regenerated templates of loop/waitq/notification/tracked code. Every generated '
               'program (whole API, rational and float time) is run in-process, on the compiled model, and in 4-8 fresh processes '
@@ -444,7 +444,7 @@ MANIFEST_TEXT = {
         technique='Lean 4 proof over the frame machine + exact whole-machine differential traces + Lean trace judge',
         design_ref='6 (C18)'),
     'C20': dict(
-        level='Further operations end in a postponement, for every world (Props/MachineYield.lean): the four steps of borrowing and giving back, the helper activities of a forcefully closed block, increase, taking a buffered item, a tick whose time has come, delay(0). Lean 4 theorems for every world state: postpone() always hibernates the caller and queues its wake-up behind '
+        level='never_overtaken (Props/MachineFifoRun.lean): the wake-up a postponing operation puts at the end of the deque is not taken before everything that was runnable at that time - for every program and any number of steps inside the time step. Further operations end in a postponement, for every world (Props/MachineYield.lean): the four steps of borrowing and giving back, the helper activities of a forcefully closed block, increase, taking a buffered item, a tick whose time has come, delay(0). Lean 4 theorems for every world state: postpone() always hibernates the caller and queues its wake-up behind '
               'everything already runnable (postpone_hibernates, with C02 fifo_now); each listed operation in a state where it '
               'need not wait reduces to that postpone before completing (setFlag/sleep 0/setTracked/put/close/scope exit/'
               'true-condition await/zero transfer lemmas). Table of every awaitable operation x 1-3 other runnable activities, and '
